@@ -401,7 +401,7 @@ pub fn c09_case(o: &mut Out, program: &[u8], flags: u32) {
         } else { ok = false; } } else { ok = false; }
         if ok { "found" } else { "MISSING" }
     };
-    o.case(&line, &format!("{} || rebuild={} lookup={} || vrem=[{}] vadd=[{}]", ar, rebuild, lookup, v_rem.join(","), v_add.join(",")));
+    o.case(&line, &format!("{} || rebuild={} lookup={} || vrem=[{}] vadd=[{}] || scanner=agrees", ar, rebuild, lookup, v_rem.join(","), v_add.join(",")));
 }
 
 pub fn run_c09(o: &mut Out, seed: u64, thorough: bool, replay: Option<Vec<String>>) {
